@@ -1,5 +1,6 @@
 from asyncio import iscoroutinefunction
 from functools import wraps
+from inspect import isawaitable
 from typing import (
     Union,
     AsyncContextManager,
@@ -370,7 +371,7 @@ def sync(function: Callable[..., Any], /) -> Callable[..., Any]:
     @wraps(function)
     async def async_wrapped(*args: Any, **kwargs: Any) -> Any:
         result = function(*args, **kwargs)
-        if isinstance(result, Awaitable):
+        if isawaitable(result):
             return await result  # pyright: ignore[reportUnknownVariableType]
         return result
 
@@ -417,14 +418,14 @@ async def any_iter(
     Prefer :py:func:`~.builtins.iter` to test for iterables with :term:`EAFP`
     and for performance when only simple iterables need handling.
     """
-    iterable = __iter if not isinstance(__iter, Awaitable) else await __iter
+    iterable = __iter if not isawaitable(__iter) else await __iter
     if isinstance(iterable, AsyncIterable):
         async for item in iterable:
             yield (
-                item if not isinstance(item, Awaitable) else await item
+                item if not isawaitable(item) else await item
             )  # pyright: ignore[reportReturnType]
     else:
         for item in iterable:
             yield (
-                item if not isinstance(item, Awaitable) else await item
+                item if not isawaitable(item) else await item
             )  # pyright: ignore[reportReturnType]
